@@ -210,6 +210,25 @@ def clDo (e : Env) (checkCmd retryable : Bool) : List Err → (attempts calls : 
         else ⟨[node], [], r⟩
       | .none => ⟨[node], [], r⟩
 
+/-- Labels of the connections `clDo` used when a topology refresh removes the slot's node from
+    `c.conns` during connection call `retireAt` (only if that call went to the slot table's node):
+    `H` = the slot table's node before the refresh, `N` = the node that owns the slot afterwards
+    (`pick` reads the refreshed table), `O` = the node a redirect pointed to. The retry decision itself
+    never looks at whether the connection is still part of the topology. -/
+def clLabels (retireAt : Option Nat) : (sends : List Bool) → (i : Nat) → (retired : Bool) → List String
+  | [], _, _ => []
+  | b :: rest, i, retired =>
+    (if b then "O" else if retired then "N" else "H") ::
+      clLabels retireAt rest (i + 1) (retired || (retireAt == some i && !b))
+
+/-- `clusterClient.Nodes()`: the per-node single client gets `retry = c.retry` (= !DisableRetry) and
+    `DisableCache = opt.DisableCache` — in that order -/
+def nodeClientFlags (disableRetry disableCache : Bool) : Bool × Bool := (!disableRetry, disableCache)
+
+/-- helper.go isCacheDisabled for a single client: MGetCache & co fall back to plain commands -/
+def nodeClientUsesCacheCalls (disableRetry disableCache : Bool) : Bool :=
+  !(nodeClientFlags disableRetry disableCache).2
+
 /-- one member of a cluster batch that still has to be sent -/
 structure Pending where
   idx : Nat
